@@ -192,14 +192,19 @@ func (c *Counter) WaitForBlockHeight(b uint64) error {
 }
 
 func (c *Counter) BlockHeightWaiter(b uint64) (<-chan uint64, error) {
-	c.M.Request(b)
-	c.M.w.mu.Lock()
-	defer c.M.w.mu.Unlock()
-	if c.M.BeginFault == "waiter" {
+	m := c.M
+	m.w.mu.Lock()
+	defer m.w.mu.Unlock()
+	if m.BeginFault == "waiter" {
+		m.Requested = append(m.Requested, b)
+		m.Calls = append(m.Calls, fmt.Sprintf("wait(%d)", b))
 		return nil, fmt.Errorf("verif: injected block counter failure")
 	}
+	// the waiter must exist before the request becomes visible to the harness
 	ch := make(chan uint64)
-	c.M.Waiter = ch
+	m.Waiter = ch
+	m.Requested = append(m.Requested, b)
+	m.Calls = append(m.Calls, fmt.Sprintf("wait(%d)", b))
 	return ch, nil
 }
 
@@ -217,14 +222,18 @@ func (c *Counter) WatchBlocks(ctx context.Context) <-chan uint64 {
 // and returns when the harness releases it or the context ends, exactly like
 // node.waitForBlockHeight (which returns nil in both cases).
 func (m *Member) WaitFn(ctx context.Context, b uint64) error {
-	m.Request(b)
 	m.w.mu.Lock()
 	if m.BeginFault == "waiter" {
+		m.Requested = append(m.Requested, b)
+		m.Calls = append(m.Calls, fmt.Sprintf("wait(%d)", b))
 		m.w.mu.Unlock()
 		return fmt.Errorf("verif: injected wait failure")
 	}
+	// the waiter must exist before the request becomes visible to the harness
 	ch := make(chan uint64)
 	m.Waiter = ch
+	m.Requested = append(m.Requested, b)
+	m.Calls = append(m.Calls, fmt.Sprintf("wait(%d)", b))
 	m.w.mu.Unlock()
 	select {
 	case <-ch:
@@ -238,8 +247,8 @@ func (m *Member) WaitFn(ctx context.Context, b uint64) error {
 
 const (
 	longWait     = 60 * time.Second // positive events of correct code arrive immediately
-	settleRounds = 400
-	settleMin    = 1500 * time.Millisecond
+	settleRounds = 1500
+	settleMin    = 3 * time.Second
 )
 
 // Await polls cond (a positive event). false = it never happened.
